@@ -1,0 +1,453 @@
+// SPDX-License-Identifier: Apache-2.0
+//! Verification hooks (feature `echo_verif`, off by default).
+//!
+//! Everything in this module is inert unless an external verification harness
+//! installs a controller, observer or fail point on the *calling thread*.
+//! Nothing here is compiled without the `echo_verif` feature, and none of the
+//! hook call sites change behaviour when no controller/observer is installed.
+//!
+//! Hooks:
+//! - H1 [`ClaimController`]: scripted claim order for the parallel executors.
+//! - H2 [`RawScheduler`]: thin wrapper over the crate-private scheduler.
+//! - H3 [`diff_state`] / [`apply_ops`]: crate-private state diff and op applier.
+//! - H4 [`accumulator_state_root`] / [`accumulator_root_after_ops`].
+//! - H5 [`io_point`]: observer called at write-ahead-log I/O points.
+//! - H6 [`fail_point`]: armed failure sites.
+
+use std::cell::RefCell;
+use std::collections::BTreeMap;
+use std::path::Path;
+use std::sync::{Arc, Condvar, Mutex, MutexGuard};
+
+use crate::footprint::Footprint;
+use crate::ident::{CompactRuleId, Hash, NodeKey};
+use crate::scheduler::{DeterministicScheduler, PendingRewrite, RewritePhase, SchedulerKind};
+use crate::tick_delta::OpOrigin;
+use crate::tick_patch::{TickPatchError, WarpOp};
+use crate::tx::TxId;
+use crate::warp_state::WarpState;
+
+// ============================================================================
+// H1: claim controller
+// ============================================================================
+
+#[derive(Debug, Default)]
+struct ClaimState {
+    tape: Vec<u16>,
+    cursor: usize,
+    expected: usize,
+    registered: usize,
+    running: Option<usize>,
+    parked: Vec<bool>,
+    exited: Vec<bool>,
+    released: Vec<bool>,
+    epochs: Vec<Vec<u16>>,
+    overlap: bool,
+}
+
+impl ClaimState {
+    fn next_worker(&self) -> Option<usize> {
+        let live = |w: usize| w < self.registered && !self.exited[w];
+        if !self.tape.is_empty() {
+            let want = usize::from(self.tape[self.cursor % self.tape.len()]);
+            // Map the tape entry onto the worker range of this epoch.
+            let want = if self.expected == 0 {
+                want
+            } else {
+                want % self.expected
+            };
+            if live(want) {
+                return Some(want);
+            }
+        }
+        (0..self.registered).find(|w| live(*w))
+    }
+
+    fn all_live_parked(&self) -> bool {
+        (0..self.registered).all(|w| self.exited[w] || self.parked[w])
+    }
+}
+
+/// Scripted claim scheduler for the work-claiming parallel executors.
+///
+/// Real worker threads park at every claim point; exactly one is released per
+/// tape entry, so the order in which workers claim work is decided by the tape
+/// and replays exactly.
+#[derive(Debug, Default)]
+pub struct ClaimController {
+    state: Mutex<ClaimState>,
+    cv: Condvar,
+}
+
+impl ClaimController {
+    /// Creates a controller that releases workers in `tape` order (cyclic).
+    /// An entry naming a worker that already exited falls back to the lowest
+    /// live worker index.
+    pub fn new(tape: Vec<u16>) -> Arc<Self> {
+        Arc::new(Self {
+            state: Mutex::new(ClaimState {
+                tape,
+                ..ClaimState::default()
+            }),
+            cv: Condvar::new(),
+        })
+    }
+
+    fn lock(&self) -> MutexGuard<'_, ClaimState> {
+        match self.state.lock() {
+            Ok(g) => g,
+            Err(p) => p.into_inner(),
+        }
+    }
+
+    /// Claim log: per executor invocation (epoch), the worker index released at
+    /// each claim point, in order.
+    pub fn claim_log(&self) -> Vec<Vec<u16>> {
+        self.lock().epochs.clone()
+    }
+
+    /// True if the controller ever saw a worker reach a claim point while a
+    /// different worker held the baton (hook placement error).
+    pub fn overlap_detected(&self) -> bool {
+        self.lock().overlap
+    }
+
+    fn begin(&self, workers: usize) {
+        let mut st = self.lock();
+        st.expected = workers;
+        st.registered = 0;
+        st.running = None;
+        st.parked = vec![false; workers];
+        st.exited = vec![false; workers];
+        st.released = vec![false; workers];
+        st.epochs.push(Vec::new());
+    }
+
+    fn register(&self) -> usize {
+        let mut st = self.lock();
+        let id = st.registered;
+        st.registered += 1;
+        if id >= st.parked.len() {
+            st.parked.resize(id + 1, false);
+            st.exited.resize(id + 1, false);
+            st.released.resize(id + 1, false);
+        }
+        drop(st);
+        self.cv.notify_all();
+        id
+    }
+
+    fn claim_point(&self, me: usize) {
+        let mut st = self.lock();
+        if st.running == Some(me) {
+            st.running = None;
+        } else if st.running.is_some() && st.released.get(me).copied().unwrap_or(false) {
+            // A worker that was released before must hold the baton when it
+            // comes back. First arrivals have not touched shared state yet.
+            st.overlap = true;
+        }
+        st.parked[me] = true;
+        self.cv.notify_all();
+        loop {
+            if st.registered == st.expected
+                && st.running.is_none()
+                && st.all_live_parked()
+                && st.next_worker() == Some(me)
+            {
+                st.running = Some(me);
+                st.parked[me] = false;
+                st.released[me] = true;
+                st.cursor += 1;
+                #[allow(clippy::cast_possible_truncation)]
+                let w = me as u16;
+                if let Some(log) = st.epochs.last_mut() {
+                    log.push(w);
+                }
+                return;
+            }
+            st = match self.cv.wait(st) {
+                Ok(g) => g,
+                Err(p) => p.into_inner(),
+            };
+        }
+    }
+
+    fn exit(&self, me: usize) {
+        let mut st = self.lock();
+        if me < st.exited.len() {
+            st.exited[me] = true;
+        }
+        if st.running == Some(me) {
+            st.running = None;
+        }
+        drop(st);
+        self.cv.notify_all();
+    }
+}
+
+thread_local! {
+    static CLAIM_CONTROLLER: RefCell<Option<Arc<ClaimController>>> = const { RefCell::new(None) };
+}
+
+/// Installs (or clears) the claim controller for executors started from the
+/// calling thread.
+pub fn install_claim_controller(ctrl: Option<Arc<ClaimController>>) {
+    CLAIM_CONTROLLER.with(|c| *c.borrow_mut() = ctrl);
+}
+
+/// Hook: called on the parent thread before workers are spawned.
+pub fn begin_claim_epoch(workers: usize) {
+    CLAIM_CONTROLLER.with(|c| {
+        if let Some(ctrl) = c.borrow().as_ref() {
+            ctrl.begin(workers);
+        }
+    });
+}
+
+/// Per-worker handle created on the parent thread in spawn order.
+#[derive(Debug, Clone)]
+pub struct ClaimToken(Option<(Arc<ClaimController>, usize)>);
+
+/// Hook: called on the parent thread once per worker, in spawn order.
+pub fn claim_token() -> ClaimToken {
+    CLAIM_CONTROLLER.with(|c| {
+        ClaimToken(c.borrow().as_ref().map(|ctrl| {
+            let id = ctrl.register();
+            (Arc::clone(ctrl), id)
+        }))
+    })
+}
+
+impl ClaimToken {
+    /// Hook: called by the worker before every claim of shared work.
+    pub fn claim_point(&self) {
+        if let Some((ctrl, me)) = &self.0 {
+            ctrl.claim_point(*me);
+        }
+    }
+
+    /// Returns a guard that reports worker exit (normal return or unwind).
+    pub fn exit_guard(&self) -> ClaimExitGuard {
+        ClaimExitGuard(self.0.clone())
+    }
+}
+
+/// Drop guard reporting that a worker left its claim loop.
+#[derive(Debug)]
+pub struct ClaimExitGuard(Option<(Arc<ClaimController>, usize)>);
+
+impl Drop for ClaimExitGuard {
+    fn drop(&mut self) {
+        if let Some((ctrl, me)) = &self.0 {
+            ctrl.exit(*me);
+        }
+    }
+}
+
+// ============================================================================
+// H2: raw scheduler access
+// ============================================================================
+
+/// Key of a drained candidate, as returned by [`RawScheduler::drain`].
+#[derive(Debug, Clone, Copy, PartialEq, Eq)]
+pub struct RawKey {
+    /// Scope hash (ordering key, most significant).
+    pub scope_hash: Hash,
+    /// Rule id.
+    pub rule_id: Hash,
+    /// Compact rule id.
+    pub compact_rule: u32,
+    /// Caller-chosen tag of the enqueue call that won last-wins deduplication.
+    pub tag: u64,
+}
+
+/// Thin wrapper over the crate-private deterministic scheduler so that a
+/// harness can present arbitrary ordering keys and footprints.
+#[derive(Debug)]
+pub struct RawScheduler {
+    inner: DeterministicScheduler,
+    drained: BTreeMap<u64, Vec<PendingRewrite>>,
+}
+
+impl RawScheduler {
+    /// Creates a scheduler of the given kind with a null telemetry sink.
+    pub fn new(kind: SchedulerKind) -> Self {
+        Self {
+            inner: DeterministicScheduler::new(kind, Arc::new(crate::telemetry::NullTelemetrySink)),
+            drained: BTreeMap::new(),
+        }
+    }
+
+    /// Enqueues a candidate for transaction `tx`.
+    #[allow(clippy::too_many_arguments)]
+    pub fn enqueue(
+        &mut self,
+        tx: u64,
+        scope_hash: Hash,
+        rule_id: Hash,
+        compact_rule: u32,
+        scope: NodeKey,
+        footprint: Footprint,
+        tag: u64,
+    ) {
+        self.inner.enqueue(
+            TxId::from_raw(tx),
+            PendingRewrite {
+                rule_id,
+                compact_rule: CompactRuleId(compact_rule),
+                scope_hash,
+                scope,
+                footprint,
+                phase: RewritePhase::Matched,
+                origin: OpOrigin {
+                    intent_id: tag,
+                    rule_id: compact_rule,
+                    match_ix: 0,
+                    op_ix: 0,
+                },
+            },
+        );
+    }
+
+    /// Drains the pending candidates of `tx` in the scheduler's canonical order.
+    pub fn drain(&mut self, tx: u64) -> Vec<RawKey> {
+        let drained = self.inner.drain_for_tx(TxId::from_raw(tx));
+        let keys = drained
+            .iter()
+            .map(|pr| RawKey {
+                scope_hash: pr.scope_hash,
+                rule_id: pr.rule_id,
+                compact_rule: pr.compact_rule.0,
+                tag: pr.origin.intent_id,
+            })
+            .collect();
+        self.drained.insert(tx, drained);
+        keys
+    }
+
+    /// Attempts to reserve the `idx`-th drained candidate of `tx`.
+    /// Returns `None` if there is no such drained candidate.
+    pub fn reserve(&mut self, tx: u64, idx: usize) -> Option<bool> {
+        let pr = self.drained.get_mut(&tx)?.get_mut(idx)?;
+        Some(self.inner.reserve(TxId::from_raw(tx), pr))
+    }
+
+    /// Finalizes `tx`.
+    pub fn finalize(&mut self, tx: u64) {
+        self.inner.finalize_tx(TxId::from_raw(tx));
+        self.drained.remove(&tx);
+    }
+}
+
+// ============================================================================
+// H3 / H4: state diff, op application, accumulator root
+// ============================================================================
+
+/// Canonical delta between two states (wrapper of the crate-private diff used
+/// to build tick patches).
+pub fn diff_state(before: &WarpState, after: &WarpState) -> Vec<WarpOp> {
+    crate::tick_patch::diff_state(before, after)
+}
+
+/// Applies `ops` to `state` in the given order (wrapper of the crate-private
+/// applier used by patch replay).
+///
+/// # Errors
+/// Returns the applier's typed error.
+pub fn apply_ops(state: &mut WarpState, ops: &[WarpOp]) -> Result<(), TickPatchError> {
+    crate::tick_patch::apply_ops_to_state(state, ops)
+}
+
+/// State root computed by the columnar snapshot accumulator for `state`.
+pub fn accumulator_state_root(state: &WarpState, root: &NodeKey) -> Hash {
+    crate::snapshot_accum::SnapshotAccumulator::from_warp_state(state)
+        .build(root, [0u8; 32], 0)
+        .state_root
+}
+
+/// State root computed by the columnar snapshot accumulator after applying
+/// `ops` to an accumulator initialised from `state`.
+pub fn accumulator_root_after_ops(state: &WarpState, ops: Vec<WarpOp>, root: &NodeKey) -> Hash {
+    let mut acc = crate::snapshot_accum::SnapshotAccumulator::from_warp_state(state);
+    acc.apply_ops(ops);
+    acc.build(root, [0u8; 32], 0).state_root
+}
+
+// ============================================================================
+// H5: I/O points
+// ============================================================================
+
+/// Observer invoked at write-ahead-log I/O points with (kind, path).
+pub type IoObserver = Box<dyn FnMut(&str, &Path)>;
+
+thread_local! {
+    static IO_OBSERVER: RefCell<Option<IoObserver>> = const { RefCell::new(None) };
+    static FAIL_POINTS: RefCell<BTreeMap<String, u64>> = const { RefCell::new(BTreeMap::new()) };
+    static FAIL_VISITS: RefCell<BTreeMap<String, u64>> = const { RefCell::new(BTreeMap::new()) };
+}
+
+/// Installs (or clears) the I/O observer of the calling thread and returns the
+/// previous one.
+pub fn install_io_observer(observer: Option<IoObserver>) -> Option<IoObserver> {
+    IO_OBSERVER.with(|o| std::mem::replace(&mut *o.borrow_mut(), observer))
+}
+
+/// Hook: reports an I/O point. The observer is taken out of its slot while it
+/// runs, so an observer that unwinds (simulated process death) leaves no
+/// borrow behind and is uninstalled.
+pub fn io_point(kind: &str, path: &Path) {
+    let taken = IO_OBSERVER.with(|o| o.borrow_mut().take());
+    if let Some(mut obs) = taken {
+        obs(kind, path);
+        IO_OBSERVER.with(|o| {
+            let mut slot = o.borrow_mut();
+            if slot.is_none() {
+                *slot = Some(obs);
+            }
+        });
+    }
+}
+
+// ============================================================================
+// H6: fail points
+// ============================================================================
+
+/// Arms `site` to fail on its `nth` visit from now (1 = next visit). The site
+/// disarms itself after firing.
+pub fn arm_fail_point(site: &str, nth: u64) {
+    FAIL_POINTS.with(|f| {
+        f.borrow_mut().insert(site.to_owned(), nth);
+    });
+}
+
+/// Clears every armed fail point and all visit counters of the calling thread.
+pub fn clear_fail_points() {
+    FAIL_POINTS.with(|f| f.borrow_mut().clear());
+    FAIL_VISITS.with(|f| f.borrow_mut().clear());
+}
+
+/// Number of times `site` was visited on this thread since the last clear.
+pub fn fail_point_visits(site: &str) -> u64 {
+    FAIL_VISITS.with(|f| f.borrow().get(site).copied().unwrap_or(0))
+}
+
+/// Hook: returns true when the armed countdown of `site` reaches zero.
+pub fn fail_point(site: &str) -> bool {
+    FAIL_VISITS.with(|f| {
+        *f.borrow_mut().entry(site.to_owned()).or_insert(0) += 1;
+    });
+    FAIL_POINTS.with(|f| {
+        let mut map = f.borrow_mut();
+        match map.get_mut(site) {
+            Some(n) if *n <= 1 => {
+                map.remove(site);
+                true
+            }
+            Some(n) => {
+                *n -= 1;
+                false
+            }
+            None => false,
+        }
+    })
+}
